@@ -1093,8 +1093,10 @@ class Gen:
             if nd != 2:
                 return False
         elif op == "repeat":
-            p["repeats"] = rng.randint(1, 3)
+            p["repeats"] = rng.randint(1, 3) if not (self.allow_zero and rng.random() < 0.08) else 0
             p["axis"] = rng.randrange(nd) if nd and rng.random() < 0.85 else None
+            if p["axis"] is not None and rng.random() < 0.3:
+                p["axis"] -= nd
             if nd == 0:
                 return False
         elif op == "reshape":
@@ -1133,6 +1135,8 @@ class Gen:
             p["reps"] = [rng.randint(1, 3) for _ in range(rng.randint(max(0, nd - 1), nd + 1))]
             if not p["reps"]:
                 p["reps"] = [2]
+            if self.allow_zero and rng.random() < 0.08:
+                p["reps"][rng.randrange(len(p["reps"]))] = 0
         elif op == "astype":
             p["dtype"] = rng.choice(["float64", "float32", "int64", "int32", "int8", "bool", "uint8", "complex128"])
             if a.dtype.kind == "c" and np.dtype(p["dtype"]).kind != "c":
